@@ -231,6 +231,8 @@ def _run(V, work, tier):
     sessions.append(("letself", ["(defun cnt (n) 'global)\n(defun use (v) (let ((cnt (lambda (n) (if (<= n 0) 'local-done (cnt (- n 1)))))) (funcall cnt v)))\n(probe 'r (use 2))\n"], False, None))
     # a name defined by defun and later rebound at top level with set; quasiquote used as a data template outside a macro
     sessions.append(("redefset", ["(defun foo () 1)\n(set 'foo (lambda () 2))\n(probe 'r (foo))\n(defun bar (x) (* x 2))\n(set 'bar (lambda (x) (* x 3)))\n(probe 'r2 (bar 5) (funcall bar 5))\n"], False, None))
+    # defconst: the value form is an expression like any other (it may call functions that get renamed)
+    sessions.append(("defconst", ["(defun compute-limit (b) (* b 4))\n(set 'base-size 8)\n(defconst limit (compute-limit base-size) \"doc\")\n(defconst plain 3)\n(defconst viafn (let ((q (compute-limit 2))) (+ q plain)))\n(probe 'r limit plain viafn)\n"], False, None))
     sessions.append(("qqdata", ["(defun mk (x) (quasiquote (x (unquote x) y)))\n(probe 'r (mk 1))\n(let ((x 1) (tag 2)) (probe 'r2 (quasiquote (x tag (unquote x) (unquote tag)))))\n(defun tagged (v) (quasiquote (tagged v (unquote v))))\n(probe 'r3 (tagged 9))\n"], False, None))
     # literal spellings the compact printer must carry over unchanged in VALUE (exponent forms, trailing zeros, escapes)
     LITS = ["1e10", "2.50e-10", "1.5e20", "3e0", "100.0", "1.0", "0.10", "-0.0", "1e-7", "12300.0", "1E3", "6.02e+23", "0x10", "-5", "007",
